@@ -158,4 +158,141 @@ theorem force_le (c : Code) : ∀ h u s m r s', Justified c m → Le s m →
         · rw [h] at p; cases p
       exact ⟨m, force_done this, hle⟩
 
+theorem Le.st_eq_of_ne_pending {s m : St} (h : Le s m) {u : Nat} (hu : s.st u ≠ some .pending) :
+    m.st u = s.st u := by
+  rcases h.2 u with e | ⟨p, _⟩
+  · exact e
+  · exact absurd p hu
+
+/-- A thunk memoised (and justified) in `m` but pending in the less evaluated
+    `s` evaluates on `s`, with enough headroom, to the memoised value. -/
+theorem force_replay {c : Code} {s m : St} {u : Nat} {v : Val} (hjm : Justified c m)
+    (hle : Le s m) (hs : s.st u = some .pending) (hmv : m.st u = some (.done v)) :
+    ∃ H, ∀ h, H ≤ h → ∃ s', force c h u s = (.ok v, s') ∧ Le s' m := by
+  obtain ⟨rk, hrk⟩ := hjm
+  have hleB : LeB (mark s u) m rk (rk u) := by
+    intro x vx hx hrx
+    have hne : u ≠ x := by intro he; subst he; omega
+    rw [st_mark_ne hne]
+    rcases hle.2 x with e | ⟨p, _⟩
+    · rw [← e]; exact .inl hx
+    · exact .inr p
+  obtain ⟨H, hH⟩ := replay hrk (rk u) (c u) v (mark s u) (hrk u v hmv) hleB
+  refine ⟨H + 1, fun h hh => ?_⟩
+  obtain ⟨n, rfl⟩ : ∃ n, h = n + 1 := ⟨h - 1, by omega⟩
+  obtain ⟨s2, e, hext⟩ := hH n (by omega)
+  have h2 : s2.st u = some .inProgress := by
+    have hmk : (mark s u).st u = some .inProgress := st_mark_self (by rw [hs]; simp)
+    rcases hext.2 u with e' | ⟨p', _⟩
+    · rw [e', hmk]
+    · rw [hmk] at p'; cases p'
+  refine ⟨s2.setState u (.done v), by rw [force_succ_pending hs, e]; rfl, ?_, fun x => ?_⟩
+  · rw [hle.1]; simpa using hext.1.symm
+  · by_cases hx : u = x
+    · subst hx
+      exact .inl (by rw [st_setState_self (by rw [h2]; simp), hmv])
+    · rw [st_setState_ne hx]
+      rcases hext.2 x with e' | ⟨_, vx, d', mx⟩
+      · rw [e', st_mark_ne hx]; exact hle.2 x
+      · exact .inl (by rw [d', mx])
+
+theorem runProg_ge {c : Code} {f : Nat → St → Res}
+    (hj : ∀ t s, Justified c s → Justified c (f t s).2)
+    (hf : ∀ u s m r m', Justified c m → Le s m → f u m = (r, m') → r ≠ .error .stackOverflow →
+      ∃ H, ∀ h, H ≤ h → ∃ s', force c h u s = (r, s') ∧ Le s' m') :
+    ∀ p s m r m', Justified c m → Le s m → runProg f p m = (r, m') → r ≠ .error .stackOverflow →
+      ∃ H, ∀ h, H ≤ h → ∃ s', runProg (force c h) p s = (r, s') ∧ Le s' m' := by
+  intro p
+  induction p with
+  | ret x => intro s m r m' _ hle h _; cases h; exact ⟨0, fun _ _ => ⟨s, rfl, hle⟩⟩
+  | fail e => intro s m r m' _ hle h _; cases h; exact ⟨0, fun _ _ => ⟨s, rfl, hle⟩⟩
+  | trace tm k ih =>
+    intro s m r m' hjm hle h hr
+    exact ih _ _ r m' (hjm.emit tm) (hle.emit tm tm) h hr
+  | force w k ih =>
+    intro s m r m' hjm hle h hr
+    rcases res_cases (f w m) with ⟨vw, m1, e⟩ | ⟨e', m1, e⟩
+    · rw [runProg_force_ok e] at h
+      obtain ⟨H1, hH1⟩ := hf w s m _ m1 hjm hle e (by simp)
+      obtain ⟨s1, e1, hle1⟩ := hH1 H1 (Nat.le_refl _)
+      have hj1 : Justified c m1 := by have := hj w m hjm; rwa [e] at this
+      obtain ⟨H2, hH2⟩ := ih vw s1 m1 r m' hj1 hle1 h hr
+      refine ⟨max H1 H2, fun h' hh => ?_⟩
+      have e1' : force c h' w s = (.ok vw, s1) := force_mono_le e1 (by simp) (by omega)
+      obtain ⟨s', e2, hle2⟩ := hH2 h' (by omega)
+      exact ⟨s', by rw [runProg_force_ok e1']; exact e2, hle2⟩
+    · rw [runProg_force_error e] at h
+      cases h
+      obtain ⟨H1, hH1⟩ := hf w s m _ _ hjm hle e hr
+      refine ⟨H1, fun h' hh => ?_⟩
+      obtain ⟨s1, e1, hle1⟩ := hH1 h' hh
+      exact ⟨s1, by rw [runProg_force_error e1], hle1⟩
+
+/-- **Reverse simulation (C11 caveat).** An outcome other than StackOverflow
+    obtained on the more evaluated store is the outcome the less evaluated
+    store gives for every large enough headroom. -/
+theorem force_ge (c : Code) : ∀ h u s m r m', Justified c m → Le s m →
+    force c h u m = (r, m') → r ≠ .error .stackOverflow →
+    ∃ H, ∀ h', H ≤ h' → ∃ s', force c h' u s = (r, s') ∧ Le s' m' := by
+  intro h
+  induction h with
+  | zero =>
+    intro u s m r m' hjm hle hf hr
+    rcases st_cases m u with h | h | h | ⟨v, h⟩
+    · rw [force_none h] at hf; cases hf
+      have : s.st u = none := by
+        rcases hle.2 u with e | ⟨_, v, d⟩
+        · rw [← e, h]
+        · rw [h] at d; cases d
+      exact ⟨0, fun _ _ => ⟨s, force_none this, hle⟩⟩
+    · rw [force_zero_pending h] at hf; cases hf; exact absurd rfl hr
+    · rw [force_zero_inProgress h] at hf; cases hf; exact absurd rfl hr
+    · rw [force_done h] at hf; cases hf
+      rcases hle.2 u with e | ⟨p, _⟩
+      · exact ⟨0, fun _ _ => ⟨s, force_done (by rw [← e, h]), hle⟩⟩
+      · exact force_replay hjm hle p h
+  | succ n ih =>
+    intro u s m r m' hjm hle hf hr
+    rcases st_cases m u with h | h | h | ⟨v, h⟩
+    · rw [force_none h] at hf; cases hf
+      have : s.st u = none := by
+        rcases hle.2 u with e | ⟨_, v, d⟩
+        · rw [← e, h]
+        · rw [h] at d; cases d
+      exact ⟨0, fun _ _ => ⟨s, force_none this, hle⟩⟩
+    · have hs : s.st u = some .pending := by
+        rcases hle.2 u with e | ⟨p, _⟩
+        · rw [← e, h]
+        · exact p
+      have hsim := runProg_ge (force_justified c n) ih (c u) (mark s u) (mark m u)
+      rcases force_pending_cases (code := c) (n := n) h with ⟨v, m2, e, h2, e2⟩ | ⟨e', m2, e, h2, e2⟩
+      · rw [e2] at hf; cases hf
+        obtain ⟨H, hH⟩ := hsim _ m2 (hjm.mark h) (hle.mark hs h) e (by simp)
+        refine ⟨H + 1, fun h' hh => ?_⟩
+        obtain ⟨k, rfl⟩ : ∃ k, h' = k + 1 := ⟨h' - 1, by omega⟩
+        obtain ⟨s2, es, hle2⟩ := hH k (by omega)
+        have hs2 : s2.st u = some .inProgress := by
+          rcases hle2.2 u with e' | ⟨_, v', d⟩
+          · rw [← e', h2]
+          · rw [h2] at d; cases d
+        exact ⟨s2.setState u (.done v), by rw [force_succ_pending hs, es]; rfl, hle2.setDone hs2⟩
+      · rw [e2] at hf; cases hf
+        obtain ⟨H, hH⟩ := hsim _ _ (hjm.mark h) (hle.mark hs h) e hr
+        refine ⟨H + 1, fun h' hh => ?_⟩
+        obtain ⟨k, rfl⟩ : ∃ k, h' = k + 1 := ⟨h' - 1, by omega⟩
+        obtain ⟨s2, es, hle2⟩ := hH k (by omega)
+        exact ⟨s2, by rw [force_succ_pending hs, es]; rfl, hle2⟩
+    · rw [force_succ_inProgress h] at hf; cases hf
+      have : s.st u = some .inProgress := by
+        rcases hle.2 u with e | ⟨_, v, d⟩
+        · rw [← e, h]
+        · rw [h] at d; cases d
+      exact ⟨1, fun h' hh => by
+        obtain ⟨k, rfl⟩ : ∃ k, h' = k + 1 := ⟨h' - 1, by omega⟩
+        exact ⟨s, force_succ_inProgress this, hle⟩⟩
+    · rw [force_done h] at hf; cases hf
+      rcases hle.2 u with e | ⟨p, _⟩
+      · exact ⟨0, fun _ _ => ⟨s, force_done (by rw [← e, h]), hle⟩⟩
+      · exact force_replay hjm hle p h
+
 end Rsj.Thunk
